@@ -631,7 +631,7 @@ class CSSMatch(_DocumentNav):
     def find_bidi(self, el: bs4.Tag) -> int | None:
         """Get directionality from element text."""
 
-        for node in self.get_children(el):
+        for node in self.get_children(el, no_iframe=True):
 
             # Analyze child text nodes
             if self.is_tag(node):
